@@ -180,8 +180,21 @@ type opInvocation struct {
 
 // Apply applies an update document to a copy of doc per DESIGN §8.2.
 func Apply(doc bson.D, update bson.D, upsert bool, arrayFilters []bson.D) (*UpdateResult, error) {
-	if hasNestedArray(doc) || hasNumericKey(doc) {
-		return nil, outside("document shape")
+	// numeric field names below an updated field are outside the domain (index or name?); arrays nested in arrays are
+	// fine for updates: every step through an array is an explicit index or a positional operator
+	for _, top := range update {
+		args, _ := top.Value.(bson.D)
+		for _, a := range args {
+			paths := []string{a.Key}
+			if t, ok := a.Value.(string); ok && top.Key == "$rename" {
+				paths = append(paths, t)
+			}
+			for _, p := range paths {
+				if p != "" && hasNumericKey(getSegs(doc, []string{strings.SplitN(p, ".", 2)[0]})) {
+					return nil, outside("numeric field name below an updated field")
+				}
+			}
+		}
 	}
 	if len(update) == 0 {
 		return nil, reject("empty update")
